@@ -33,6 +33,9 @@ PROP = dict(
     harnesses=[
         H(NP, "c18", "c18_echo_v3", "NTPv3 48/52-byte requests under 4 policies: time/DENY answer header fields per RFC 5905 oracle (byte level), ignored when NTS required", timeout=900),
         H(NP, "c18", "c18_echo_v4", "NTPv4 48/52-byte requests: same, plus the v5 upgrade marker", timeout=900),
-        H(NP, "c18", "c18_echo_first_byte", "15 other first bytes and MAC sizes 20/24, lengths 47/50: LI ignored, non-client / unknown versions / malformed sizes dropped", tier="thorough", timeout=1800),
+        H(NP, "c18", "c18_echo_first_byte_a", "first bytes LI 3 (v4, v3) answered like LI 0; v4 modes 0,1,2 dropped", tier="thorough", timeout=1800),
+        H(NP, "c18", "c18_echo_first_byte_b", "v4 modes 4..7 and version 0 dropped", tier="thorough", timeout=1800),
+        H(NP, "c18", "c18_echo_first_byte_c", "versions 1,2,6,7 and a v5 request without draft identification dropped", tier="thorough", timeout=1800),
+        H(NP, "c18", "c18_echo_mac_sizes", "v4 requests with 20/24-byte MAC answered (MAC not reflected); 47- and 50-byte datagrams dropped", tier="thorough", timeout=1800),
     ],
 )
